@@ -253,12 +253,17 @@ def check(cx):
         good = bool(val) and bool(arms)
         detail = ""
         if good:
-            m = arms[0][2]
-            allowed_region = core.dominated(f, m.get("Allowed", -1)) if "Allowed" in m else set()
-            conflict_region = core.dominated(f, m.get("Conflict", -1)) if "Conflict" in m else set()
+            sw_bb, _, m, other, _ = arms[0]
+            # `match r { Allowed => .., Conflict(t) => .. }` or `if let Conflict(t) = r { ..; return Err } ..`: the Allowed side is
+            # what the switch reaches without entering the Conflict arm
+            conflict_t = m.get("Conflict")
+            allowed_t = m.get("Allowed", other)
+            conflict_region = core.dominated(f, conflict_t) if conflict_t is not None else set()
+            past_conflict = f.reachable(conflict_t) if conflict_t is not None else set(range(len(f.blocks)))
+            allowed_region = (f.reachable(allowed_t) - past_conflict) if conflict_t is not None and allowed_t != conflict_t else set()
             committed = [bb for bb, s in st_of.items() if s == "Committed"]
             aborted = [bb for bb, s in st_of.items() if s == "Aborted"]
-            good = bool(committed) and all(bb in allowed_region for bb in committed) and \
+            good = bool(committed) and all(bb in allowed_region and f.dominates(sw_bb, bb) for bb in committed) and \
                 all(any(f.dominates(v.bb, bb) for v in val) for bb in committed) and \
                 bool(aborted) and all(bb in conflict_region for bb in aborted)
             detail = "Committed stored in %s (Allowed arm %s), Aborted in %s" % (committed, sorted(allowed_region)[:3], aborted)
